@@ -383,7 +383,7 @@ func Pointers(v *jr.Value) (res, miss []string) {
 			for i, k := range x.Keys {
 				walk(x.Vals[i], prefix+"/"+jr.EncTok(k))
 			}
-			miss = append(miss, prefix+"/zz", prefix+"/0", prefix+"/-", prefix+"/n~0w", prefix+"/n~1w", prefix+"/~01", prefix+"/~10", prefix+"/50%", prefix+"/a%sb%d")
+			miss = append(miss, prefix+"/zz", prefix+"/0", prefix+"/-", prefix+"/n~0w", prefix+"/n~1w", prefix+"/~01", prefix+"/~10", prefix+"/50%", prefix+"/a%sb%d", prefix+"/")
 		case jr.Arr:
 			n := len(x.A)
 			for i, e := range x.A {
